@@ -702,6 +702,13 @@ pub fn run(ctx: &Ctx, rep: &Report) -> Meta {
             fixed.push(Op::Sign { suite, key: KeySpec { fixture: false, ikm: BSpec { len: 32, class: 0, seed: 21 }, key_info: OptBytes::None, key_dst: OptBytes::None }, header: if hl == 0 { OptBytes::Empty } else { OptBytes::Bytes(BSpec { len: hl, class: 0, seed: hl as u32 }) },
                 msgs: MsgVec { items: (0..[1usize, 3, 10, 17][hl % 4]).map(|j| BSpec { len: 5, class: 0, seed: j as u32 }).collect() } });
         }
+        // every interface-identifier length around the 255-octet limit of a domain separation tag (the suffixes the
+        // library appends are 4 to 26 octets long): generators, message mapping
+        for al in 190..=262usize {
+            let api = ApiSel::Ascii(BSpec { len: al, class: 3, seed: al as u32 });
+            fixed.push(Op::MsgScalars { suite, msgs: MsgVec { items: vec![BSpec { len: 5, class: 0, seed: 1 }, BSpec { len: 0, class: 0, seed: 2 }] }, api: api.clone() });
+            fixed.push(Op::Generators { suite, counts: vec![3], api });
+        }
         for ml in 0..=300usize {
             fixed.push(Op::H2s { suite, msg: BSpec { len: ml, class: 0, seed: ml as u32 }, dst: BSpec { len: 16, class: 3, seed: 6 } });
         }
@@ -727,7 +734,7 @@ pub fn run(ctx: &Ctx, rep: &Report) -> Meta {
                hash_to_scalar (dst up to 400 octets), messages_to_scalars, Sign, and verifier decisions on honest and mutated artefacts (message / header / ph / pk edits, bit flips, index shifts, whole-scalar framing edits, zero scalars, a scalar written as value + r, identity points, trailing bytes, L+-1, other blinding factor, list shapes of the disclosed data: one more message than indexes, one more (unlisted) index than messages, a second entry under an index that is already listed) \
                for verify, proof_verify, blind_sign's commitment validation, verify_blind_sign, blind_proof_verify; proofs and commitments made by the library must be accepted by the reference and vice versa; \
                oracle: byte equality of outputs and equality of Ok/Err decisions with the independent reference model, which must first reproduce every fixture; \
-               size sweep: Sign octets, proof and blind round trips for every L in 0..=72 (quick) / 0..=260 (thorough); every message length 0..=600 / 2100 through messages_to_scalars, every header length 0..=1100 through Sign, every hash_to_scalar input length 0..=300; a third of the operations after a warm-up history; schedules: lists of such operations executed by 2, 4 or 16 threads released from a barrier in rotated orders; non-trivial = every generated operation (none coincides with a fixture); evaluations = compared outputs / decisions"
+               size sweep: Sign octets, proof and blind round trips for every L in 0..=72 (quick) / 0..=260 (thorough); every message length 0..=600 / 2100 through messages_to_scalars, every header length 0..=1100 through Sign, every hash_to_scalar input length 0..=300, every interface-identifier length 190..=262 through messages_to_scalars and create_generators; a third of the operations after a warm-up history; schedules: lists of such operations executed by 2, 4 or 16 threads released from a barrier in rotated orders; non-trivial = every generated operation (none coincides with a fixture); evaluations = compared outputs / decisions"
             .into(),
         assumptions: vec![
             "trusted and shared with the library: bls12_381_plus arithmetic, point compression, pairing, hash_to_curve, sha2 / sha3".into(),
